@@ -586,6 +586,9 @@ pub fn decode(b: &Bits, pos: usize, code: Code, e: End, zx: bool) -> Dec<u64> {
         }
         Code::Rice(k) => {
             let (q, c0) = tri!(b.unary_at(pos, zx));
+            if ((q as u128) << k) > u64::MAX as u128 {
+                return Dec::Invalid;
+            }
             let (f, c1) = tri!(fld(b, pos + c0, k as usize, e, zx));
             let v = ((q as u128) << k) + f;
             if v > u64::MAX as u128 {
@@ -595,6 +598,11 @@ pub fn decode(b: &Bits, pos: usize, code: Code, e: End, zx: bool) -> Dec<u64> {
         }
         Code::Golomb(bb) => {
             let (q, c0) = tri!(b.unary_at(pos, zx));
+            // a quotient that already puts the value beyond 64 bits is not the prefix of any codeword
+            // of the domain, whatever follows (or fails to follow) it
+            if q as u128 * bb as u128 > u64::MAX as u128 {
+                return Dec::Invalid;
+            }
             let (r, c1) = tri!(dec_minbin(b, pos + c0, bb as u128, e, zx));
             let v = q as u128 * bb as u128 + r;
             if v > u64::MAX as u128 {
@@ -604,6 +612,9 @@ pub fn decode(b: &Bits, pos: usize, code: Code, e: End, zx: bool) -> Dec<u64> {
         }
         Code::ExpGolomb(k) => {
             let (g, c0) = tri!(decode(b, pos, Code::Gamma, e, zx));
+            if ((g as u128) << k) > u64::MAX as u128 {
+                return Dec::Invalid;
+            }
             let (f, c1) = tri!(fld(b, pos + c0, k as usize, e, zx));
             let v = ((g as u128) << k) + f;
             if v > u64::MAX as u128 {
